@@ -194,6 +194,21 @@ class CollideGen:
             proj.features.add('copy_files')
         proj.model = {'targets': targets, 'intermediate_dirs': inter,
                       'extra_conflict': extra_conflict}
+        if backend != 'msbuild' and rng.random() < 0.08 and \
+           true_conflict(proj.model, backend) is None:
+            # one source of one top-level target spelled absolutely (a path
+            # into the source directory): the same file, the same target
+            stmts = [st for st in main if st.kind in (
+                'executable', 'library', 'static_library') and
+                st.facts.get('srcs')]
+            st = rng.choice(stmts)
+            srcs = list(st.facts['srcs'])
+            j = rng.randrange(len(srcs))
+            spelled = [G.Raw("env.srcdir.string() + {!r}".format('/' + x))
+                       if i == j else x for i, x in enumerate(srcs)]
+            st.text = G.call(st.kind, st.facts['name'], files=spelled)
+            proj.model['abs_sources'] = [srcs[j]]
+            proj.features.add('absolute_source')
         proj.features.add('intermediate_dirs' if inter
                           else 'no_intermediate_dirs')
         return proj
@@ -280,19 +295,35 @@ class C05Case:
 
     def contained(self, what, result=None):
         now = self.w.snapshot('src')
+        # what the known naming rule for absolutely spelled sources explains
+        # (object, its depfile and Make's directory marker beside the source)
+        # - anything else in the same case is still an unexplained escape
+        explained = set()
+        for a in (self.proj.model or {}).get('abs_sources', ()):
+            stem = os.path.splitext(a)[0]
+            d = os.path.dirname(a)
+            explained |= {stem + '.o', stem + '.o.d',
+                          os.path.join(d, '.dir') if d else '.dir'}
         if now != self.src0:
             changed = sorted(k for k in set(now) | set(self.src0)
                              if now.get(k) != self.src0.get(k))
+            feats = {'op=' + what}
+            if explained and set(changed) <= explained:
+                feats = {'absolute-source'}
             self.vio('containment', '{} created or changed {} in the source '
-                     'directory'.format(what, changed[:5]), {'op=' + what})
+                     'directory'.format(what, changed[:5]), feats)
             return False
         if result is not None:
             for s in result.steps:
                 for wpath in s['writes']:
                     if not wpath.startswith('build/'):
+                        feats = {'op=' + what}
+                        if wpath.startswith('src/') and \
+                           wpath[4:] in explained:
+                            feats = {'absolute-source'}
                         self.vio('containment', 'a step of {} wrote {} '
                                  'outside the build directory'.format(
-                                     what, wpath), {'op=' + what})
+                                     what, wpath), feats)
                         return False
             for inv in result.inv:
                 for kind, rel in inv['events']:
